@@ -771,7 +771,9 @@ class Slicer:
                     rv = ds[0][3]
                     if rv["k"] == "ref" and rv["m"] == "mut":
                         p = rv["p"]
-                        mutref[l] = p[0]
+                        # only whole-value borrows: `&mut x.f` mutates one field (handled as a partial write)
+                        if not any(isinstance(e, list) and e[0] == "f" for e in p[1:]):
+                            mutref[l] = p[0]
             # follow reborrows `&mut *tmp`
             changed = True
             while changed:
@@ -1603,7 +1605,13 @@ def referent_place(body, operand):
             return None
         rv = ds[0][3]
         if rv["k"] == "ref":
-            return rv["p"]
+            rp = rv["p"]
+            # `&*tmp` reborrow: keep resolving tmp
+            if len(rp) == 2 and rp[1] == "*":
+                inner = referent_place(body, ["c", [rp[0]]])
+                if inner is not None:
+                    return inner
+            return rp
         if rv["k"] == "use":
             operand = rv["o"]
             continue
